@@ -96,6 +96,17 @@ func HTTPShutdown(srv *http.Server, ctx context.Context) error {
 	return nil
 }
 
+// InFlight is the number of requests that are being handled right now (by any listener, open or shut down).
+func InFlight() int {
+	n := 0
+	for _, l := range S.listeners {
+		l.mu.Lock()
+		n += l.inflight
+		l.mu.Unlock()
+	}
+	return n
+}
+
 // Listening reports whether a server accepts requests on addr.
 func Listening(addr string) bool {
 	l := S.listener(addr)
